@@ -8,6 +8,15 @@ VERIF = os.path.dirname(os.path.dirname(os.path.abspath(__file__)))
 
 # property -> (category, technique, text, note, design_ref)
 CHECKS = {
+    'C09': ('exploration', 'dense shadow state (norm included) updated by the harness after every MPS transformation and compared '
+            'with the harness contraction of the MPS; window density matrices for infinite MPS',
+            'Random histories of apply_local_op / apply_product_op / apply_local_term, swap_sites / permute_sites (fermionic '
+            'signs), add, group_sites-group_split, enlarge_chi, perturb, compress(_svd), spatial_inversion, gauge_total_charge, '
+            'convert_form on entangled states with non-uniform bond dimensions; compression must stay within the reported '
+            'truncation error; for infinite MPS with non-uniform forms roll/enlarge must keep canonical form and all window '
+            'density matrices up to relabelling.',
+            'permute_sites follows the implemented and unit-tested convention (old site i moves to perm[i]); the docstring '
+            'states the inverse', 'DESIGN.md §C09'),
     'C08': ('exploration', 'dense <bra|O|ket> reference with operators built by explicit kron and Jordan-Wigner strings; per-sample '
             'Born-amplitude monitor for sample_measurements',
             'For random entangled states in random canonical forms (and a second state for bra != ket with non-unit norms) every '
